@@ -42,7 +42,7 @@ EXACT = {2: (0.625, 0.0), 3: (0.625, 0.0, 0.0), 4: (0.625, 0.0, 0.0, 1.625)}
 
 
 def bounds(tier):
-    return {"tier": tier, "system_pairs": "all 4 / 36 / 144", "tolerance_pairs": TOLS, "backends": ["OBJ", "NP", "AKA", "AKR"], "mixed_pairings_ordered": [list(m) for m in MIXED],
+    return {"tier": tier, "system_pairs": "all 4 / 36 / 144", "tolerance_pairs": TOLS, "backends": ["OBJ", "NP", "AKA", "AKR", "NP with a differing extra field", "AKA with a differing extra field"], "mixed_pairings_ordered": [list(m) for m in MIXED],
             "pair_classes": ["degenerate stored tuples (zero transverse part / zero length with arbitrary stored angles)", "identical", "one component (each in turn)", "one component doubled (each in turn; decides which operand scales rtol)", "two components", "all components", "nearly equal 1e-12/1e-7/1e-3", "exact across systems", "rounded across systems", "different across systems"]}
 
 
@@ -182,6 +182,10 @@ def check_pairs(res: Result, dim, sa, sb, plist, backend, flavor="generic"):
             return B.make_np(system, flavor, rows)
         if backend == "AKA":
             return B.make_ak(system, flavor, rows, "flat")
+        if backend in ("NP+extra", "AKA+extra"):
+            # a non-coordinate field that differs between the two operands: comparisons are about coordinates only
+            extra = {"weight": [float(i + (0.0 if rows is ra else 0.5)) for i in range(len(rows))]}
+            return B.make_np(system, flavor, rows, extra=extra) if backend == "NP+extra" else B.make_ak(system, flavor, rows, "flat", extra=extra)
         if backend == "AKR":
             return [B.make_akr(system, flavor, r) for r in rows]
         raise KeyError(backend)
@@ -288,7 +292,7 @@ def check_pairs(res: Result, dim, sa, sb, plist, backend, flavor="generic"):
                     else:
                         res.traces += 1
         prev[(rtol, atol)] = ic
-        if backend == "NP":
+        if backend in ("NP", "NP+extra"):
             r = run(lambda x, y: np.isclose(x, y, rtol=rtol, atol=atol), va, vb)
             if isinstance(r, tuple):
                 viol("form_raises[numpy.isclose]", 0, f"numpy.isclose raised {r[1]}", {"rtol": rtol, "atol": atol})
@@ -297,7 +301,7 @@ def check_pairs(res: Result, dim, sa, sb, plist, backend, flavor="generic"):
                 for i in bad[:3]:
                     viol("form_differs[numpy.isclose]", i, f"numpy.isclose = {r[i]}, .isclose = {ic[i]}", {"rtol": rtol, "atol": atol})
                 tally(n - len(bad))
-        if backend in ("NP", "AKA"):
+        if backend in ("NP", "AKA", "NP+extra", "AKA+extra"):
             res.transitions += 1
             try:
                 al = bool(va.allclose(vb, rtol=rtol, atol=atol))
@@ -305,7 +309,7 @@ def check_pairs(res: Result, dim, sa, sb, plist, backend, flavor="generic"):
                     viol("allclose", None, f"allclose = {al} but all(isclose) = {all(ic)}", {"rtol": rtol, "atol": atol})
                 else:
                     tally(1)
-                if backend == "NP":
+                if backend in ("NP", "NP+extra"):
                     al2 = bool(np.allclose(va, vb, rtol=rtol, atol=atol))
                     if al2 != al:
                         viol("form_differs[numpy.allclose]", None, f"numpy.allclose = {al2}, .allclose = {al}", {"rtol": rtol, "atol": atol})
@@ -438,11 +442,11 @@ def run_shard(shard, tier):
     for sb in [tuple(x) for x in shard["sysBs"]]:
         plist = pairs_for(dim, sa, sb, tier)
         check_mixed(res, dim, sa, sb, plist if tier == "thorough" else _strided(plist, 16))
-        for backend in ("OBJ", "NP", "AKA", "AKR"):
+        for backend in ("OBJ", "NP", "AKA", "AKR", "NP+extra", "AKA+extra"):
             pl = plist
             if backend == "AKR" and tier != "thorough":
                 pl = plist[:: max(1, len(plist) // 12)]  # records are built one at a time (slow): every k-th pair in quick
-            flavor = "momentum" if (backend in ("NP", "AKA") and sb == sa) else "generic"
+            flavor = "momentum" if (backend in ("NP", "AKA", "AKA+extra") and sb == sa) else "generic"
             check_pairs(res, dim, sa, sb, pl, backend, flavor)
         if sb == sa and plist:
             res.sample({"dim": dim, "sysA": list(sa), "sysB": list(sb), "pairs": len(plist), "example": {"label": plist[1][0], "a": list(plist[1][1]), "b": list(plist[1][2])}})
